@@ -123,7 +123,8 @@ def check_C03(tier, seed):
     drive_and_judge(rep, "C03", cases_from_S(r1.cases if quick else r1.cases[::4], "shape", "stages-shape"), "shape", keep)
     drive_and_judge(rep, "C03", cases_from_S(r2.cases, "ctx", "stages-ctx"), "ctx", keep)
     rc = random_shader_cases(rng, 1200 if quick else 30000, "rnd", "stages-random", n_fn=(0, 6), n_entry=(1, 5), depth=3, push=0.5)
-    drive_and_judge(rep, "C03", rc + F.deep_use_cases(push=False) + F.deep_use_cases(push=True) + F.many_function_cases()
+    drive_and_judge(rep, "C03", rc + F.deep_use_cases(push=False) + F.deep_use_cases(push=True) + F.many_function_cases() + [{"id": "twin-groups", "family": "groups-with-equal-resources", "S": F.twin_groups_shader(), "opts": F.opts()}]
+                    + [{"id": "ifchain-long-%d" % i, "family": "else-if-chain", "S": F.nested("if_chain_long", 1, ret=bool(i)), "opts": F.opts()} for i in (0, 1)]
                     + [{"id": "ifsplit-%d" % i, "family": "calls-in-both-arms", "S": F.if_split_shader(ra, rb_), "opts": F.opts()} for i, (ra, rb_) in enumerate([(False, False), (True, False), (False, True), (True, True)])], "random", keep)
     # a subset is compiled against the recording device: the visibility VALUES the generated code passes, not their tokens
     sub = cases_from_S(r2.cases[::(60 if quick else 6)], "ctxr", "stages-ctx-recorded", vary_validate=False) + [dict(c, id="r" + c["id"], family="stages-random-recorded") for c in rc[:(80 if quick else 1500)]]
@@ -193,7 +194,7 @@ def check_C13(tier, seed):
     stages_mc(rep, quick, memo=MEMO, check_work=False)
     keep = ["push_stages", "pipeline_layout"]
     cases = F.push_cases(rng, 600 if quick else 12000)
-    drive_and_judge(rep, "C13", cases + F.deep_use_cases(push=True), "push", keep)
+    drive_and_judge(rep, "C13", cases + F.deep_use_cases(push=True) + F.many_function_cases(push=True), "push", keep)
     # the descriptor the compiled module really hands to the device (recording shim) ...
     sub = [dict(c, id="r" + c["id"], family="push-recorded") for c in cases[:(120 if quick else 2000)]]
     compiled_and_judge(rep, "C13", sub, "recorded", "shim", {"pipeline_layout"}, keep=["push_stages"], enforce="C13R")
@@ -393,6 +394,9 @@ def check_C18(tier, seed):
               "S": {"structs": [{"name": "VertexInput", "members": [{"name": "a", "ty": F.VEC4, "io": {"k": "loc", "n": 0}}]}, {"name": "vertexInput", "members": [{"name": "b", "ty": F.VEC4, "io": {"k": "loc", "n": 1}}]}],
                     "globals": [], "consts": [], "overrides": [], "functions": [],
                     "entries": [{"name": "vs_main", "stage": "vertex", "params": [{"k": "struct", "name": "p", "ty": "VertexInput"}, {"k": "struct", "name": "q", "ty": "vertexInput"}], "result": {"k": "builtin", "b": "position"}, "body": [], "wg": []}]}})
+    L.append({"id": "h-caseclash", "family": "history", "repeat": 1, "opts": F.opts(rustfmt=True),
+              "S": {"structs": [], "globals": [], "consts": [], "overrides": [], "functions": [],
+                    "entries": [{"name": "main", "stage": "fragment", "params": [], "body": [], "wg": []}, {"name": "Main", "stage": "compute", "params": [], "body": [], "wg": ["1"]}]}})
     kw = {"structs": [{"name": "KW", "members": [{"name": "box", "ty": {"k": "scalar", "s": "f32"}}]}],
           "globals": [{"name": "kwbuf", "space": "storage_r", "group": "0", "binding": "0", "ty": {"k": "struct", "name": "KW"}}], "consts": [], "overrides": [], "functions": [],
           "entries": [{"name": "main", "stage": "compute", "params": [], "body": [{"k": "access", "g": "kwbuf", "how": "addr"}], "wg": ["1"]}]}
@@ -499,7 +503,7 @@ def check_C18(tier, seed):
 
 
 FMT_PLANS = ["ok", "slow", "fail_after_read", "slow_read", "fail_no_read", "empty", "ok_no_read", "ok_partial_read", "kill_no_read", "kill_after_read", "kill_mid_read",
-             "kill_mid_output", "term_after_read", "absent", "near_swap", "near_str_ws", "near_prefix", "near_twice", "near_source_ws", "near_field_swap", "near_swap_raw", "near_str_ws_raw", "near_twice_raw", "near_source_ws_raw", "noexec", "isdir", "fail_utf8_cut", "kill_utf8_cut", "ok_utf8_cut", "near_str_case", "near_str_case_raw", "near_drop_last", "near_drop_last_raw"]
+             "kill_mid_output", "term_after_read", "absent", "near_swap", "near_str_ws", "near_prefix", "near_twice", "near_source_ws", "near_field_swap", "near_swap_raw", "near_str_ws_raw", "near_twice_raw", "near_source_ws_raw", "noexec", "isdir", "fail_utf8_cut", "kill_utf8_cut", "ok_utf8_cut", "near_str_case", "near_str_case_raw", "near_drop_last", "near_drop_last_raw", "garbage_utf8_96", "ok_sigchld_ignored"]
 
 
 def describe_fmt(case, events, matched):
@@ -742,6 +746,14 @@ def check_C01(tier, seed):
                                    ([{"name": "k", "ty": "i32", "default": "8"}], ["k"])]):
         cases.append({"id": "wg-override-%d" % i, "family": "compile-workgroup-size-overrides", "S": {"structs": [], "globals": [], "consts": [], "overrides": ovs, "functions": [],
                       "entries": [{"name": "main", "stage": "compute", "params": [], "body": [], "wg": wg}, {"name": "fs_main", "stage": "fragment", "params": [], "body": [], "wg": []}]}, "opts": F.opts(rustfmt=(i % 2 == 0))})
+    # Rust keywords the front end accepts, as @location members of a vertex input struct and as variable names (formatter off and on)
+    for i, kwn in enumerate(["box", "dyn", "in"]):
+        for fmt in (False, True):
+            cases.append({"id": "kw-vertex-%d-%d" % (i, fmt), "family": "compile-ident", "opts": F.opts(rustfmt=fmt, bmv=True),
+                          "S": {"structs": [{"name": "VertexInput", "members": [{"name": "pos", "ty": F.VEC4, "io": {"k": "loc", "n": 0}}, {"name": kwn, "ty": F.VEC4, "io": {"k": "loc", "n": 1}}]}],
+                                "globals": [{"name": "g_" + kwn, "space": "uniform", "group": "0", "binding": "0", "ty": F.VEC4}], "consts": [], "overrides": [], "functions": [],
+                                "entries": [{"name": "vs_main", "stage": "vertex", "params": [{"k": "struct", "name": "v", "ty": "VertexInput"}], "result": {"k": "builtin", "b": "position"},
+                                             "body": [{"k": "access", "g": "g_" + kwn, "how": "load"}], "wg": []}]}})
     # scalar constants named like the local bindings of the generated root-level functions (identifier patterns resolve to constants)
     for i, nm in enumerate(["device", "source", "module", "entry", "targets", "overrides", "entries", "value", "pass", "bind_group0", "step_mode", "v_in", "layout", "bindings", "index", "Device"]):
         S = {"structs": [{"name": "VIn", "snake": "v_in", "members": [{"name": "p", "ty": F.VEC4, "io": {"k": "loc", "n": 0}}]}],
@@ -856,6 +868,13 @@ def check_C02(tier, seed):
     ctx = cases_from_S(r2.cases[::(2 if quick else 1)], "ctx", "stages-ctx", vary_validate=False)
     for i, (ra, rb_) in enumerate([(False, False), (True, False), (False, True), (True, True)]):
         ctx.append({"id": "ifsplit-%d" % i, "family": "calls-in-both-arms", "S": F.if_split_shader(ra, rb_), "opts": F.opts()})
+    rtS = {"structs": [{"name": "Growable", "members": [{"name": "bounds", "ty": F.VEC4}, {"name": "count", "ty": {"k": "scalar", "s": "u32"}}, {"name": "items", "ty": {"k": "rtarray", "e": {"k": "scalar", "s": "u32"}}}]},
+                       {"name": "Odd", "members": [{"name": "a", "ty": {"k": "vec", "n": 3, "s": "f32"}}, {"name": "items", "ty": {"k": "rtarray", "e": {"k": "vec", "n": 2, "s": "f32"}}}]}],
+           "globals": [{"name": "growable", "space": "storage_rw", "group": "0", "binding": "0", "ty": {"k": "struct", "name": "Growable"}}, {"name": "odd", "space": "storage_r", "group": "0", "binding": "1", "ty": {"k": "struct", "name": "Odd"}}],
+           "consts": [], "overrides": [], "functions": [],
+           "entries": [{"name": "cs_main", "stage": "compute", "params": [], "body": [{"k": "access", "g": "growable", "how": "load"}, {"k": "access", "g": "odd", "how": "array_length"}], "wg": ["1"]}]}
+    ctx.append({"id": "rt-header", "family": "runtime-array-with-header", "S": rtS, "opts": F.opts(enc=True, mv="glam")})
+    ctx.append({"id": "twin-groups", "family": "groups-with-equal-resources", "S": F.twin_groups_shader(), "opts": F.opts()})
     # buffers above 64 KiB (no limit of any device may leak into the layout)
     for i, (sp, n_) in enumerate([("uniform", 4097), ("uniform", 4096), ("storage_r", 4097), ("storage_rw", 70000)]):
         B = F.bgd_shader([{"g": 0, "b": 0}, {"g": 0, "b": 1}], use=True, tys=[{"k": "array", "n": n_, "e": F.VEC4}, F.VEC4])
@@ -1044,6 +1063,7 @@ def check_C04(tier, seed):
                 [{"op": "get_layout", "arg": "1"}, {"op": "from_bindings", "arg": "1"}, {"op": "from_bindings", "arg": "0"}, {"op": "set", "arg": "0@render"}]]
     ocases += [{"id": "ops-fmtswap-%d" % i, "family": "bind-groups-op-sequences-formatter-swaps-fields", "S": S3, "opts": F.opts(rustfmt=True), "ops": ops_, "fmt_plan": "near_field_swap"}
                for i, ops_ in enumerate(swap_ops)]
+    ocases += [{"id": "ops-fmtdrop-%d" % i, "family": "bind-groups-op-sequences-formatter-drops-tail", "S": S3, "opts": F.opts(rustfmt=True), "ops": ops_, "fmt_plan": "near_drop_last"} for i, ops_ in enumerate(swap_ops[:1])]
     ocases += [{"id": "ops-fmtok-%d" % i, "family": "bind-groups-op-sequences-formatter-on", "S": S3, "opts": F.opts(rustfmt=True), "ops": ops_, "fmt_plan": "ok"} for i, ops_ in enumerate(swap_ops)]
     compiled_and_judge(rep, "C04", ocases, "ops", "shim", want, keep=["groups"])
     compiled_and_judge(rep, "C04", sparse_group_cases(rng, 150 if quick else 3000), "random", "shim", want, keep=["groups"])
@@ -1070,6 +1090,10 @@ def entry_cases(rep, rng, quick):
                 e["result"] = r_
             ents.append(e)
         cases.append({"id": "ent-frag-same-type-%d" % i, "family": "entries-fragment-results-of-one-type", "S": {"structs": [], "globals": [], "consts": [], "overrides": [], "functions": [], "entries": ents}, "opts": F.opts()})
+    cases.append({"id": "ent-wg-override", "family": "entries-workgroup-size-override", "opts": F.opts(),
+                  "S": {"structs": [], "globals": [], "consts": [], "overrides": [{"name": "width", "ty": "u32", "default": "16u"}], "functions": [],
+                        "entries": [{"name": "cs_a", "stage": "compute", "params": [], "body": [], "wg": ["width", "4"]}, {"name": "cs_b", "stage": "compute", "params": [], "body": [], "wg": ["2", "width", "width"]},
+                                     {"name": "vs_plain", "stage": "vertex", "params": [{"k": "builtin", "name": "i", "b": "vertex_index"}], "result": {"k": "builtin", "b": "position"}, "body": [], "wg": []}]}})
     # the same struct taken twice by one vertex entry (the validator refuses the repeated locations; validation is off by default)
     cases.append({"id": "ent-same-struct-twice", "family": "entries-same-struct-twice", "opts": F.opts(),
                   "S": {"structs": [{"name": "VIn", "members": [{"name": "a", "ty": F.VEC4, "io": {"k": "loc", "n": 0}}]}, {"name": "Other", "members": [{"name": "b", "ty": F.VEC4, "io": {"k": "loc", "n": 1}}]}],
@@ -1174,11 +1198,14 @@ def check_C16(tier, seed):
         cases.append({"id": "src-long-%d" % i, "family": "source-long", "S": F.source_shader(text), "opts": F.opts(rustfmt=(i % 2 == 1))})
     for i, pth in enumerate([" shader.wgsl", "shader.wgsl ", "shader.wgsl\n", "\tshader.wgsl", "\u3000shader.wgsl", "\u00a0x.wgsl\u00a0", " ", "./a/../shader.wgsl", "shader.wgsl\r\n", "", "0", "None",
                               "\\\\?\\C:\\shaders\\a.wgsl", "\\\\?\\UNC\\srv\\a.wgsl", "\\\\.\\a.wgsl", "C:\\a.wgsl", "file:///a.wgsl", "~/a.wgsl", "$OUT_DIR/a.wgsl", "%TEMP%\\a.wgsl",
-                              "shader.wgsl", "a.wgsl", "shaders/main.wgsl", "shaders//shader.wgsl", "a/./b.wgsl", "dir/", "dir/.", "/abs//x.wgsl", "a\\b\\c.wgsl", "..\\up.wgsl", "a/b/../../c.wgsl"]):
+                              "shader.wgsl", "a.wgsl", "shaders/main.wgsl", "templates/${variant}/shader.wgsl", "${OUT_DIR}/shader.wgsl", "${HOME}", "$HOME/x.wgsl", "{}/x.wgsl", "{0}.wgsl", "%s.wgsl", "..", "shaders//shader.wgsl", "a/./b.wgsl", "dir/", "dir/.", "/abs//x.wgsl", "a\\b\\c.wgsl", "..\\up.wgsl", "a/b/../../c.wgsl"]):
         cases.append({"id": "src-path-%d" % i, "family": "source-include-paths", "S": F.source_shader("p"), "opts": F.opts(include=pth)})
         cases.append({"id": "src-path-%d-emb" % i, "family": "source-include-paths", "S": F.source_shader("p"), "opts": F.opts()})
     for i, pre in enumerate(["\ufeff", "\ufeff\ufeff", "\u200b", "\u2060", "\ufffe", "\x00", "\ufeff\n"]):
         cases.append({"id": "src-bom-%d" % i, "family": "source-invisible-prefix", "wgsl": pre + "@fragment fn fs_main() {}\n", "opts": F.opts()})
+    for i, tail in enumerate(["// trailing comment", "// caf\u00e9", "//", "/* block */ // x", "// a\n// b"]):
+        for fmt in (False, True):
+            cases.append({"id": "src-tail-%d-%d" % (i, fmt), "family": "source-ends-in-line-comment", "wgsl": "@fragment fn fs_main() {}\n" + tail, "opts": F.opts(rustfmt=fmt)})
     # text that tempts a raw-string spelling of the literal: quotes next to hash signs, runs of hashes, a raw-string look-alike
     for i, text in enumerate(['"#', '"##', 'a "#define" b', 'r#"x"#', '"#"##"###', '#"', '\\"#', '"#\n"##\n', '###"###', 'say "hi" # then "##" and \\ back']):
         for fmt in (False, True):
@@ -1191,7 +1218,7 @@ def check_C16(tier, seed):
         cases.append({"id": "src-fmtws-real-%d" % i, "family": "source-formatter-alters-literal", "wgsl": text, "opts": F.opts(rustfmt=True, enc=True), "fmt_plan": ("near_source_ws", "near_source_ws_raw")[i % 2]})
     drive_and_judge(rep, "C16", cases, "static", ["source", "nosource_sha"])
     # a sample goes through rustc: SOURCE evaluated by the compiler and handed to the (recording) device
-    sample = [c for c in cases if "include" not in c["opts"]][::(30 if quick else 8)]
+    sample = [c for c in cases if "include" not in c["opts"]][::(30 if quick else 8)] + [c for c in cases if c["family"] == "source-ends-in-line-comment"]
     compiled_and_judge(rep, "C16", sample, "compiled", "shim", {"source"}, keep=["source", "nosource_sha"])
     return finish(rep)
 
